@@ -282,6 +282,9 @@ func cycleAlphabet(chunk int, quick bool) []cycle {
 		lens[2*chunk] = true
 		lens[3*chunk+1] = true
 	}
+	if chunk >= 5 {
+		lens[chunk+2] = true // still below the capacity a grown buffer of this size would have
+	}
 	var ls []int
 	for l := range lens {
 		if l >= 0 {
@@ -394,14 +397,14 @@ var (
 )
 
 func run(c *enum.Ctx) {
-	c.Rule("breadth-first search over cycle histories on a real sorter: each transition is one whole cycle (push a value word, Finalise, k Pulls, Clear) from an alphabet with push counts 0,1,chunk-1,chunk,chunk+1,2chunk+1 (thorough: 2chunk, 3chunk+1), every value word over {1,2} up to length 3 (5) and every pull count in {0,1,half,all,all+1}; states are merged at cycle boundaries on a reflective key of the sorter (every field of the struct: scalars, slice shapes, channel contents, nil-ness of interfaces; strings and sync primitives skipped); run to closure per configuration (chunk 1..3 x AutoClear x concurrent x element type); reference model = sorted multiset; non-trivial = histories whose last cycle spills")
+	c.Rule("breadth-first search over cycle histories on a real sorter: each transition is one whole cycle (push a value word, Finalise, k Pulls, Clear) from an alphabet with push counts 0,1,chunk-1,chunk,chunk+1,(chunk+2 for chunk 5),2chunk+1 (thorough: 2chunk, 3chunk+1), every value word over {1,2} up to length 3 (5) and every pull count in {0,1,half,all,all+1}; states are merged at cycle boundaries on a reflective key of the sorter (every field of the struct: scalars, slice shapes, channel contents, nil-ness of interfaces; strings and sync primitives skipped); run to closure per configuration (chunk 1,2,3,5 x AutoClear x concurrent x element type); reference model = sorted multiset; non-trivial = histories whose last cycle spills")
 	c.Assume("protocol order push* finalise pull* clear; Clear implicit after EOF with AutoClear", "two histories with equal boundary keys have equal futures (the key is read from the real object; a missing field disables merging); histories of up to 2 (thorough: 3) cycles are all run without merging")
 	work := os.Getenv("VERIF_WORK")
 	if work == "" {
 		work = os.TempDir()
 	}
 	var cfgs []config
-	for _, chunk := range []int{1, 2, 3} {
+	for _, chunk := range []int{1, 2, 3, 5} { // 5: not a capacity that append-growth produces
 		for _, ac := range []bool{false, true} {
 			for _, conc := range []bool{false, true} {
 				for _, st := range []bool{false, true} {
